@@ -143,12 +143,15 @@ type c13Cfg struct {
 	gate       string // where Shutdown is placed relative to a gated point
 	until      string // "shutdownCalled" | "shutdownReturned"
 	lateAsync  bool   // one listener's Async is issued concurrently with Shutdown
-	relisten   bool   // listener 0's address was listened on and closed before; the stale handle is closed again
+	acceptErr  bool   // listener 0's accept loop hits an accept error unrelated to closing, before Shutdown
+	failWrite  bool   // a client channel suffers a write-side transport failure before Shutdown (on the transport wrapper)
+	wrap       *[2]int
+	relisten   bool // listener 0's address was listened on and closed before; the stale handle is closed again
 }
 
 func (g c13Cfg) String() string {
-	return fmt.Sprintf("L=%d preInject=%d preConnect=%d concInject=%d concConnect=%d closeSome=%v lclose=%d gate=%s until=%s lateAsync=%v relisten=%v",
-		g.listeners, g.preInject, g.preConnect, g.concInject, g.concConn, g.closeSome, g.lclose, g.gate, g.until, g.lateAsync, g.relisten)
+	return fmt.Sprintf("L=%d preInject=%d preConnect=%d concInject=%d concConnect=%d closeSome=%v lclose=%d gate=%s until=%s lateAsync=%v relisten=%v acceptErr=%v failWrite=%v wrap=%v",
+		g.listeners, g.preInject, g.preConnect, g.concInject, g.concConn, g.closeSome, g.lclose, g.gate, g.until, g.lateAsync, g.relisten, g.acceptErr, g.failWrite, g.wrap != nil)
 }
 
 var c13Gates = []string{"none", "loop-start", "in-listen", "before-accept", "child-init", "active", "client-init", "activate-during-closeall", "handshake-read-in-active", "panic-in-active", "late-activation-handshake-read"}
@@ -182,9 +185,18 @@ func runC13(c *core.Ctx) {
 			until:      []string{"shutdownCalled", "shutdownReturned"}[(idx/len(c13Gates))%2],
 			lateAsync:  rng.Intn(4) == 0,
 			relisten:   rng.Intn(5) == 0,
+			acceptErr:  rng.Intn(6) == 0,
+			failWrite:  rng.Intn(4) == 0,
 		}
 		if rng.Intn(4) == 0 {
 			cfg.lclose = rng.Intn(cfg.listeners)
+		}
+		if rng.Intn(3) == 0 {
+			wv := [][2]int{{64, 64}, {4096, 4096}, {0, 64}, {64, 0}, {0, 0}}[rng.Intn(5)]
+			cfg.wrap = &wv
+		}
+		if cfg.acceptErr && (cfg.gate == "loop-start" || cfg.gate == "in-listen" || cfg.gate == "before-accept" || cfg.relisten || cfg.lateAsync) {
+			cfg.acceptErr = false
 		}
 		if cfg.gate == "loop-start" || cfg.gate == "in-listen" || cfg.gate == "before-accept" {
 			cfg.preInject = 0 // nothing is accepting before Shutdown in these placements
@@ -226,7 +238,7 @@ func c13Trial(c *core.Ctx, id string, cfg c13Cfg) {
 			atomic.AddInt32(&gateHit, 1)
 		}
 	}
-	f := &mon.MockFactory{}
+	f := &mon.MockFactory{Wrap: cfg.wrap}
 	ex := &c13Exec{}
 	var probesMu sync.Mutex
 	var probes []*c13Probe
@@ -390,6 +402,34 @@ func c13Trial(c *core.Ctx, id string, cfg c13Cfg) {
 	if !preGated {
 		bg.Wait() // established before Shutdown
 	}
+	acceptErrIdx := -1
+	if cfg.acceptErr {
+		// an accept error that has nothing to do with closing ends listener 0's loop; the listener is still
+		// the bootstrap's responsibility: Shutdown must close its acceptor
+		for dl := time.Now().Add(2 * time.Second); time.Now().Before(dl); {
+			if as := accepting(); len(as) > 0 && as[0].InAccept() > 0 {
+				as[0].FailNext(errors.New("accept: too many open files"))
+				fmt.Sscanf(as[0].URL, "mock://l%d:", &acceptErrIdx) // acceptors are created in the order the loops start
+				break
+			}
+			runtime.Gosched()
+		}
+	}
+	if cfg.failWrite {
+		chMu.Lock()
+		if len(chans) > 0 {
+			_, ts := f.Snapshot()
+			for _, t := range ts {
+				t.AddFault(mon.Fault{Kind: mon.OpWrite, K: 0, Err: errors.New("write: connection reset")})
+				t.AddFault(mon.Fault{Kind: mon.OpWritev, K: 0, Err: errors.New("write: connection reset")})
+			}
+			func() {
+				defer func() { recover() }()
+				chans[0].Write1([]byte("doomed"))
+			}()
+		}
+		chMu.Unlock()
+	}
 	if cfg.closeSome {
 		chMu.Lock()
 		if len(chans) > 0 {
@@ -537,6 +577,10 @@ func c13Trial(c *core.Ctx, id string, cfg c13Cfg) {
 			viol("accept-loop-did-not-end", fmt.Sprintf("listener #%d: Async callback fired %d times after Shutdown (accept loop still running or never run)", i, fired))
 			continue
 		}
+		if i == acceptErrIdx && li.cbErr != nil {
+			c.Count("listeners_ended_by_accept_error", 1)
+			continue
+		}
 		if !li.explicit && !errors.Is(li.cbErr, netty.ErrServerClosed) {
 			viol("accept-loop-wrong-error", fmt.Sprintf("listener #%d: accept loop ended with %v, want ErrServerClosed", i, li.cbErr))
 		}
@@ -555,7 +599,7 @@ func c13Trial(c *core.Ctx, id string, cfg c13Cfg) {
 			c.Count("activation_during_closeall", 1)
 		}
 	}
-	c.Sig(cfg.listeners, cfg.preInject, cfg.preConnect, cfg.concInject, cfg.concConn, cfg.closeSome, cfg.lclose >= 0, cfg.gate, cfg.until, cfg.lateAsync, cfg.relisten, hit > 0, len(ts))
+	c.Sig(cfg.listeners, cfg.preInject, cfg.preConnect, cfg.concInject, cfg.concConn, cfg.closeSome, cfg.lclose >= 0, cfg.gate, cfg.until, cfg.lateAsync, cfg.relisten, cfg.acceptErr, cfg.failWrite, cfg.wrap != nil, hit > 0, len(ts))
 	if c.WantSample() && hit > 0 {
 		c.Sample(map[string]interface{}{"history": cfg.String(), "acceptors": len(as), "transports": len(ts), "gates_honoured": hit})
 	}
